@@ -77,7 +77,7 @@ package scanner
 //@   requires lex != nil && 1 <= p && p <= len(lex.data)
 //@   ensures result ==> (old(p) <= lex.p && lex.p <= len(lex.data))
 //@   ensures !result ==> lex.p == old(lex.p)
-//@   loop 0 invariant old(p) <= p && p < len(lex.data)
+//@   loop 0 invariant old(p) <= p && p <= len(lex.data)
 //@   loop 0 decreases len(lex.data) - p
 //@   modifies lex.p
 //@   props C01
